@@ -35,8 +35,8 @@ func (x *exec) computeFrame(entry *State, env *Env) *frameInfo {
 	for _, m := range con.Modifies {
 		text := m.Text
 		switch {
-		case strings.HasPrefix(text, "csprng("):
-			// provenance flags are ghost state: exempt from the frame check
+		case strings.HasPrefix(text, "csprng("), strings.HasPrefix(text, "bigval("):
+			// provenance flags / big.Int values are ghost state: exempt from the frame check
 		case strings.HasSuffix(text, "[*]"):
 			e, err := ParseExpr(strings.TrimSuffix(text, "[*]"))
 			if err != nil {
@@ -129,6 +129,10 @@ func frameExempt(n string) bool {
 }
 
 const csprngArr = "ghost!csprng"
+
+// bigvalArr maps a *big.Int to the mathematical integer it holds (ghost field; big.Int methods are
+// used through assumed contracts over it).
+const bigvalArr = "ghost!bigval"
 
 // clearCsprng: a buffer that the program writes into element-wise (or copies into) is no longer
 // known to hold bytes from the secure random source.
